@@ -35,6 +35,7 @@ func checkC16(p *Prog, r *Report) {
 	r.rule("C16.T6", "a mismatch is harmless: data packets bypass the decoder (C07.F8); recovered packets are size-checked (C07.F3)", 2)
 	r.rule("C16.T7", "the sample window holds at least (largest accepted d+p) + 2 samples", 1)
 	r.rule("C16.T9", "the newest group id (counted in units of shardSize, compared by signed difference) is meaningful before it is compared: the update newestShardId = <group of this packet> is taken unconditionally for the first packet after construction and after a retune — its condition is a disjunction with a 'not yet set' flag of the decoder that the update sets and every store to shardSize outside the constructor is followed by clearing (or newestShardId itself is re-stored there). Otherwise the first real id can compare as 'older' than the stale/zero value, the value never moves and discardShards throws away every freshly stored shard: nothing is recovered 'from then on'", 2)
+	r.rule("C16.T10", "FEC enabled at one end only: the listener's own FEC parameters (dataShards, parityShards) never decide what happens to an arriving packet — they are arguments of newUDPSession, not conditions of Listener.packetInput or UDPSession.kcpInput; every FEC packet reaches the session's (lazily created) decoder so that it can learn the sender's ratio", 2)
 	r.rule("C16.T8", "a matching sender never produces a mismatch: types follow positions (C07.F7), ids advance modulo a multiple of the group size (C12.K5)", 4)
 
 	fi := p.FuncOf(p.Method("fecDecoder", "decode"))
@@ -499,6 +500,9 @@ func checkC16(p *Prog, r *Report) {
 		r.check(ok, "C16.T7", "autoTune", "-", "window size", fmt.Sprintf("maxAutoTuneSamples = %d >= %d + 2", window, limit), fmt.Sprintf("the sample window (%d) cannot hold one full period of the largest accepted ratio (d+p = %d) plus the two edges that delimit its pulses: such a sender's ratio is never detected", window, limit))
 	}
 
+	// ---- T10
+	checkListenerParamsNotConditions(p, r)
+
 	// ---- T8
 	delegate(p, r, "C07", checkC07, "C07.F7", "C16.T8")
 	delegate(p, r, "C12", checkC12, "C12.K5", "C16.T8")
@@ -889,5 +893,48 @@ func checkNewestGroupInit(p *Prog, r *Report, rule string) {
 	}
 	if n == 0 {
 		r.ok(rule, dec.Name, p.Pos(dec.Node), "store(fecDecoder.shardSize) invalidates newestShardId", "the group size never changes after construction")
+	}
+}
+
+// checkListenerParamsNotConditions: C16.T10.
+func checkListenerParamsNotConditions(p *Prog, r *Report) {
+	flds := []*types.Var{p.Field("Listener", "dataShards"), p.Field("Listener", "parityShards")}
+	for _, name := range []string{"(*Listener).packetInput", "(*UDPSession).kcpInput"} {
+		fi := p.FuncByName(name)
+		if fi == nil || fi.Body == nil {
+			r.bad("C16.T10", name, "-", "conditions of "+name, "function not found", "")
+			continue
+		}
+		bad := ""
+		check := func(fn *FuncInfo) {
+			c := p.CFG(fn)
+			for _, b := range c.live {
+				ct := c.CondTerm(b)
+				if ct == nil {
+					continue
+				}
+				for _, f := range flds {
+					if termHasField(ct, f) && bad == "" {
+						pos := "-"
+						if len(b.Nodes) > 0 {
+							pos = p.Pos(b.Nodes[len(b.Nodes)-1])
+						}
+						bad = pos + ": " + pretty(ct.Key())
+					}
+				}
+			}
+		}
+		check(fi)
+		// switch tags and helpers with one caller are part of the function
+		for g := range p.TransEffects(fi).Funcs {
+			if g != fi && (g.Lit != nil && rootFuncInfo(g) == fi) {
+				check(g)
+			}
+		}
+		if bad != "" {
+			r.bad("C16.T10", fi.Name, p.Pos(fi.Node), "conditions of "+name, "a branch depends on the listener's own FEC parameters ("+bad+"): packets of a sender whose FEC setting differs from the listener's are treated differently — a session without FEC never sees the parity samples it needs to adopt the sender's ratio", "")
+		} else {
+			r.ok("C16.T10", fi.Name, p.Pos(fi.Node), "conditions of "+name, "no branch mentions Listener.dataShards / parityShards")
+		}
 	}
 }
